@@ -287,10 +287,11 @@ From CC Require Import Model.NumArray Proofs.NumArrayProofs Model.DimType Proofs
 
 (* Whatever per-cell statistic F the response was laid out from, cell (item i, valid grouping
    elements gidx) of the result is F of (those grouping elements' payload positions, item i):
-   no transposition, missing grouping elements dropped wherever they sit.  One grouping axis
-   (array x categorical / date / text / binned) or two (array x MR, array x cat x cat). *)
+   no transposition, missing grouping elements dropped wherever they sit.  Any number of
+   grouping axes (array x categorical / date / text / binned, array x MR, array x cat x cat,
+   array x cat x MR, ...). *)
 Theorem C01_numarr_reports_cell_statistic n gs (F : tensor) i gidx :
-  List.length gs = 1 \/ List.length gs = 2 -> valid_idx_ok gs gidx -> i < n ->
+  gs <> [] -> valid_idx_ok gs gidx -> i < n ->
   numarr_valid n gs (flatten (numarr_payload_shape n gs) F) (i :: gidx)
   = F (remap (map dvalid gs) gidx ++ [i]).
 Proof. exact (numarr_reports_cell_statistic n gs F i gidx). Qed.
@@ -298,7 +299,7 @@ Print Assumptions C01_numarr_reports_cell_statistic.
 
 (* the same as index arithmetic on the flat data: data[offset(grouping) * n_items + item] *)
 Theorem C01_numarr_payload_offset n gs data i gidx :
-  List.length gs = 1 \/ List.length gs = 2 -> valid_idx_ok gs gidx -> i < n ->
+  gs <> [] -> valid_idx_ok gs gidx -> i < n ->
   numarr_valid n gs data (i :: gidx)
   = nth (offset (map dsize gs) (remap (map dvalid gs) gidx) 0 * n + i) data NaN.
 Proof. exact (numarr_valid_offset n gs data i gidx). Qed.
@@ -339,17 +340,19 @@ Theorem C01_nub_reads_the_only_cell data : nub_value data = nth 0 data NaN.
 Proof. exact (nub_reads data). Qed.
 Print Assumptions C01_nub_reads_the_only_cell.
 
-(* REFUTED for three grouping axes (array x categorical x MR, array x MR x categorical,
-   array x MR x MR): Dimensions.dimension_order then REVERSES all axes instead of moving the
-   array axis to the back, and the cell read is not the cell of the response
-   (known_findings.d/C01-numarr-four-axes.json; the witness is replayed on the code). *)
-Theorem C01_numarr_four_axes_refuted :
-  exists n gs data i gidx,
-    List.length gs = 3 /\ i < n /\ valid_idx_ok gs gidx /\
-    numarr_valid n gs data (i :: gidx)
-    <> numarr_cell n gs data i (remap (map dvalid gs) gidx).
-Proof. exact numarr_four_axes_refuted. Qed.
-Print Assumptions C01_numarr_four_axes_refuted.
+(* ANY number of grouping axes (array x categorical x MR, array x MR x MR, ...): since the repair
+   of finding C01-numarr-four-axes the two theorems above need no bound on the number of axes; the
+   former witness (three grouping axes, where the code used to reverse ALL axes) reads the cell of
+   the response. *)
+Theorem C01_numarr_four_axes_former_witness :
+  let n := 2 in
+  let gs := [mkDim DCat [false; false]; mkDim DMrSubvar [false; false; false];
+             mkDim DMrCat mr_cat_missing] in
+  let data := map (fun k => Fin (inject_Z (Z.of_nat k))) (seq 0 36) in
+  List.length gs = 3 /\ valid_idx_ok gs [1; 0; 0] /\
+  numarr_valid n gs data (0 :: [1; 0; 0]) = numarr_cell n gs data 0 (remap (map dvalid gs) [1; 0; 0]).
+Proof. exact numarr_four_axes_former_witness. Qed.
+Print Assumptions C01_numarr_four_axes_former_witness.
 
 (* the rotation (array axis to the back, nothing else) reads the response's cell for ANY
    number of grouping axes -- the order a repaired dimension_order has to return *)
